@@ -40,6 +40,25 @@ class Equiv:
         self.ref_args = ref_args
 
 
+class NativeFacts:
+    """facts about module-initialisation state / class statements, evaluated natively on the imported working tree (no inputs to
+    quantify over); each becomes an obligation whose goal is the observed truth value"""
+    kind = 'facts'
+
+    def __init__(self, label, items, func='(module state)'):
+        self.label, self.items, self.func, self.kw = label, items, func, {}
+
+    def run(self, v):
+        import z3 as _z3
+        for name, clause, thunk in self.items:
+            try:
+                ok = bool(thunk(v.facts))
+            except Exception as e:
+                ok = False
+                clause = '%s (raised %r)' % (clause, e)
+            v.add('%s::%s' % (self.label, name), self.func, clause, [], _z3.BoolVal(ok), 'facts')
+
+
 def make_arg(ex, st, name, tag, prefix='a_'):
     """typed symbolic argument"""
     if isinstance(tag, SV):
@@ -254,6 +273,7 @@ class Verifier:
         jobs = {}
         cfg = self.config_for(c, fname, {o: dict(lc, mode=lc.get('mode', 'summary')) for o, lc in loops.items()}, c.kw.get('config'))
         ex = self.new_executor(cfg)
+        ex.side = which
         ex.loop_jobs = jobs
         ex.cur_func_node, ex.cur_func_name = node, fname
         st = self.init_state(ex, node, argtags, positional=positional)
@@ -273,7 +293,7 @@ class Verifier:
         positional = ['p%d' % i for i in range(max(len(iparams), len(rparams)))]
         rargs = c.ref_args or {rp: c.args[ip] for ip, rp in zip(iparams, rparams) if ip in c.args}
         iloops = {o: dict(lc, name='%s.loop%s' % (c.ref, lc.get('ref', o)), vars=lc['vars']) for o, lc in c.loops.items()}
-        rloops = {lc.get('ref', o): dict(lc, name='%s.loop%s' % (c.ref, lc.get('ref', o)), vars=lc.get('ref_vars', lc['vars']))
+        rloops = {lc.get('ref', o): dict(lc, name='%s.loop%s' % (c.ref, lc.get('ref', o)), vars=lc.get('ref_vars', lc['vars']), inv=lc.get('ref_inv', []))
                   for o, lc in c.loops.items()}
         exi, outs_i, jobs_i, ok1 = self._run_side(c, 'impl', c.func, c.args, iloops, positional)
         exr, outs_r, jobs_r, ok2 = self._run_side(c, 'ref', c.ref, rargs, rloops, positional)
@@ -343,8 +363,25 @@ class Verifier:
             if os.environ.get('DEBUG_MATCH') and os.environ['DEBUG_MATCH'] in name:
                 print('IMPL PATH', name, [e for e in p.st.events], 'candidates', len(disj))
                 for q, comps_q in prepared_r:
-                    if kind_of(q) == kind_of(p):
+                    if kind_of(q) == kind_of(p) and getattr(q, 'tag', None) == getattr(p, 'tag', None) and len(comps_q) == len(comps_p):
                         print('    REF', getattr(q, 'tag', None), [e for e in q.st.events])
+                        sol = z3.Solver(); sol.set('timeout', 5000)
+                        sol.add(*exi.base_facts[:0]); sol.add(*p.st.pc); sol.add(*q.st.pc)
+                        if sol.check() == z3.unsat:
+                            print('        (path conditions incompatible)'); continue
+                        labels = ['comp%d' % i for i in range(len(comps_p))] + ['state%d' % i for i in range(20)]
+                        eqs = [a == b for a, b in zip(comps_p, comps_q)] + self._state_eq(p.st, q.st, c.observe)
+                        for lab, eq in zip(labels, eqs):
+                            sol.push(); sol.add(z3.Not(eq)); r = sol.check(); sol.pop()
+                            if r != z3.unsat:
+                                print('        differs:', lab, str(z3.simplify(eq))[:400].replace('\n', ' '))
+                        sol2 = z3.Solver(); sol2.set('timeout', 5000); sol2.add(*p.st.pc)
+                        for f in q.st.pc:
+                            if f.get_id() in pset:
+                                continue
+                            sol2.push(); sol2.add(z3.Not(f)); r = sol2.check(); sol2.pop()
+                            if r != z3.unsat:
+                                print('        ref-side fact not implied:', str(f)[:300].replace('\n', ' '))
             self.add(name, c.func, 'same outcome, events and modelled heap as %s' % c.ref, p.st.pc, z3.Or(*disj) if disj else z3.BoolVal(False), what)
 
     def _site(self, o):
@@ -366,6 +403,8 @@ class Verifier:
         for k in [k for k in s.arr if k.startswith('at:')]:
             s.arr[k] = z3.Const('lh_%s_at_%s' % (tagn, k[3:]), Z.ArrRR)
         for i, (vname, tag) in enumerate(job['lc']['vars']):
+            if vname.startswith('='):
+                continue
             v = make_arg(ex, s, '%s_v%d' % (tagn, i), tag, prefix='lh_')
             ex.set_var(s, vname, v)
         its = self._generic_its(ex, s, job['its'], tagn)
@@ -408,9 +447,18 @@ class Verifier:
             for ex, job in ((exi, ji), (exr, jr)):
                 ex.cur_func_node, ex.cur_func_name = job['func_node'], job['func_name']
                 s, its = self._generic_head(ex, job, lname, len(job['lc']['vars']))
-                steps = ex.loop_step(s, job['module'], its, job['bind'], job['body'])
+                heads = ex.assume_clauses(s, job['lc'].get('inv', []), job['module']) if job['lc'].get('inv') else [s]
+                steps = []
+                for hs in heads:
+                    steps += ex.loop_step(hs, job['module'], its, job['bind'], job['body'])
                 outs = []
                 for kind, s2, val, its2 in steps:
+                    if kind in ('fall', 'continue') and job['lc'].get('inv'):
+                        n0 = len(ex.obligations)
+                        ex.check_clauses(s2.fork(), job['lc']['inv'], job['module'], '%s::%s::inv-preserved' % (job['func_name'], lname))
+                        for ob in ex.obligations[n0:]:
+                            self.add(ob['name'], c.func, ob['clause'], ob['pc'], ob['goal'], 'invariant')
+                        del ex.obligations[n0:]
                     kind = 'next' if kind in ('fall', 'continue') else kind
                     o = Out(kind if kind not in ('next', 'stop', 'break') else 'fall', s2, val if kind in ('ret', 'raise') else None)
                     o.tag = kind
@@ -421,8 +469,10 @@ class Verifier:
             def extra(ex, job):
                 def f(o):
                     terms = [const('KIND_' + o.tag)]
+                    if o.tag in ('raise', 'ret'):
+                        return terms       # locals are dead when the loop is left by an exception or a return (see loop_summary)
                     for vname, tag in job['lc']['vars']:
-                        v = ex.lookup(o.st, vname, job['module'])
+                        v = NONE_SV if vname == '=None' else ex.lookup(o.st, vname, job['module'])
                         ex.publish(o.st, v)
                         terms.append(ex.box(o.st, v))
                     if o.tag == 'next':
